@@ -26,45 +26,50 @@ def prefix_of(ev, idx):
 
 def run(ctx):
     ctx.build("h-programs", "c21")
+    def explore(depth):
+        src = open(ctx.spec("MC_Revertible.cfg")).read()
+        cfg = "MC_Revertible_run_%s_%d" % (ctx.tier, depth)
+        with open(ctx.spec(cfg + ".cfg"), "w") as f:
+            f.write(src.replace("Depth = 6", "Depth = %d" % depth))
+        try:
+            r = ctx.model_check("MC_Revertible", cfg=cfg, workers=8, timeout=1700)
+        finally:
+            os.remove(ctx.spec(cfg + ".cfg"))
+        paths = r.tagged("P")
+        seen = {o["op"] for p in paths for o in p}
+        if OPS - seen:
+            raise vlib.ToolError("vacuity: operations never taken in MC_Revertible: %s" % sorted(OPS - seen))
+        pf = ctx.path("paths.%d.ndjson" % depth)
+        vlib.write_ndjson(pf, paths)
+        return pf, len({vlib.json.dumps(p) for p in paths})
+
     depth = 6 if ctx.quick else 8
-    src = open(ctx.spec("MC_Revertible.cfg")).read()
-    cfg = "MC_Revertible_run_%s" % ctx.tier
-    with open(ctx.spec(cfg + ".cfg"), "w") as f:
-        f.write(src.replace("Depth = 6", "Depth = %d" % depth))
-    try:
-        r = ctx.model_check("MC_Revertible", cfg=cfg, workers=8, timeout=1700)
-    finally:
-        os.remove(ctx.spec(cfg + ".cfg"))
-    paths = r.tagged("P")
-    seen = {o["op"] for p in paths for o in p}
-    if OPS - seen:
-        raise vlib.ToolError("vacuity: operations never taken in MC_Revertible: %s" % sorted(OPS - seen))
-    pf = ctx.path("paths.ndjson")
-    vlib.write_ndjson(pf, paths)
+    deep = explore(depth)
     # the model's pool slot is played by different real pool kinds, in a two-token and a single-token market
     if ctx.quick:
-        plays = [("primary", 1), ("total_borrowing", 0)]
+        plays = [("primary", 1, deep), ("total_borrowing", 0, deep)]
     else:
+        shallow = explore(6)
         kinds = ["primary", "swap_impact", "claimable_fee", "open_interest_for_long", "open_interest_for_short",
                  "open_interest_in_tokens_for_long", "open_interest_in_tokens_for_short", "position_impact", "borrowing_factor",
                  "funding_amount_per_size_for_long", "funding_amount_per_size_for_short",
                  "claimable_funding_amount_per_size_for_long", "claimable_funding_amount_per_size_for_short",
                  "collateral_sum_for_long", "collateral_sum_for_short", "total_borrowing"]
-        plays = [(k, i % 2) for i, k in enumerate(kinds)]
-    npaths = len({vlib.json.dumps(p) for p in paths})
-    for kind, pure in plays:
+        plays = [(k, 1 - i % 2, deep if k in ("primary", "total_borrowing") else shallow) for i, k in enumerate(kinds)]
+    npaths = deep[1]
+    for kind, pure, (pf, want) in plays:
         tr = ctx.path("replay.%s.ndjson" % kind)
         out = ctx.run_bin("c21", ["replay", "--in", pf, "--pool", kind, "--pure", pure, "--out", tr])
         vlib.log("  %s pure=%d: %s" % (kind, pure, out.strip()))
         fails, drifts, _ = ctx.validate_trace("Trace_Revertible", tr, timeout=2400, heap="6g")
         ev = vlib.read_ndjson(tr)
-        if len(ev) - 1 < npaths:
-            raise vlib.ToolError("replay executed %d operations for %d transitions" % (len(ev) - 1, npaths))
+        if len(ev) - 1 < want:
+            raise vlib.ToolError("replay executed %d operations for %d transitions" % (len(ev) - 1, want))
         ctx.distinct += len(ev) - 1
         if not any(e["op"] == "commit" and e["events"] == 1 for e in ev):
             raise vlib.ToolError("vacuity: no commit emitted its MarketStateUpdated event")
         ctx.cov["samples"] += [{k: v for k, v in ev[min(len(ev) - 1, 9)].items() if k not in ("storage", "slot_revs")}]
-        for f in fails:
+        for f in fails[:100]:      # the first failures are enough to decide and to replay
             ctx.report(classify(ev[f["i"] - 1], f["mon"]),
                        {"driver": "h-programs c21 replay --pool %s --pure %d" % (kind, pure), "events": prefix_of(ev, f["i"])})
     # random histories over all 16 pool kinds, all clocks, all other-state fields, mint / burn, both market kinds
@@ -79,7 +84,7 @@ def run(ctx):
     ctx.cov["slot_fields_written"] = len(slots_written)
     ctx.distinct += len({(e["op"], e["slot"], e["field"], e["fv"], vlib.json.dumps(e["val"]), e["rev"]) for e in ev})
     ctx.cov["samples"] += [{k: v for k, v in ev[len(ev) // 2].items() if k not in ("storage", "slot_revs")}]
-    for f in fails:
+    for f in fails[:100]:      # the first failures are enough to decide and to replay
         ctx.report(classify(ev[f["i"] - 1], f["mon"]), {"driver": "h-programs c21 random", "events": prefix_of(ev, f["i"])[-10:]})
     ctx.assumptions += ["operations are driven through RevertibleMarket / RevertibleLiquidityMarket on an in-memory account "
                         "(no virtual inventories, no swap/position wrappers); the instruction-level use is covered by C22/C23",
